@@ -224,6 +224,8 @@ func runCheck(eng *Engine, o checkOpts, t0 time.Time) int {
 		}
 		if kf := known.match(o.prop, name); kf != nil {
 			nKnown++
+			nObl-- // an open known finding is reported, not claimed as proved
+
 			if !knownSeen[kf] {
 				knownSeen[kf] = true
 				knownLines = append(knownLines, fmt.Sprintf("KNOWN-FINDING: property=%s %s [obligation %s]", o.prop, kf.What, name))
@@ -304,6 +306,7 @@ func runCheck(eng *Engine, o checkOpts, t0 time.Time) int {
 			"covers":                   nCover,
 			"covers_reachable":         nCoverOK,
 			"known_findings_reproduced": nKnown,
+			"explanation":              "obligations counts the obligations claimed as proved on this run (those of open known findings and of undecided.json are listed separately and not claimed)",
 			"undecided":                undecided,
 			"undecided_contracts":      unsupported,
 			"bounded":                  bounded,
